@@ -14,7 +14,7 @@ from ..core import Run
 from ..pool import run_ops
 from ..tlc import read_export, run_tlc, validate_traces
 
-A40 = set(range(1, 47))
+A40 = set(range(1, 51))
 S16 = {1, 2, 3, 4, 5, 6, 7, 9, 10, 11, 14, 15, 22, 25, 27, 28}
 H = {1, 2, 3, 4, 5, 6, 7, 8}
 BASE = dict(MaxArgs=0, MaxSegs=0, SegUse={1}, MaxLines=0, HostUse={1}, FolUse={1}, TrailUse={""})
